@@ -7,6 +7,8 @@ package main
 // each copy is reopened with db.DatabaseNew and read back the way Teamserver.Start does.
 
 import (
+	"time"
+	"net"
 	"fmt"
 	"io"
 	"os"
@@ -54,6 +56,7 @@ type c10World struct {
 	snaps        []string // restored views at interior kill points of the current operation
 	lastDangling string
 	nsnap        int
+	tlPorts      map[string]int
 	inOp         bool // an operation of the history is running: its statements are kill points
 	probeWrites  bool // this restore is followed by a write through the restored database
 	writesLost   bool // sticky for the run: every further probe would wait for SQLite's busy timeout again
@@ -240,6 +243,7 @@ func (w *c10World) line(c *Ctx, in string) {
 		w.realWorld.close()
 		w.realWorld = newRealWorld("c10")
 		w.wrap = &snapTS{Teamserver: w.ts, w: w}
+		w.tlPorts = map[string]int{}
 		w.nsnap = 0
 		// kill points at every write statement, wherever in the teamserver it is issued
 		hookDB(w.ts.DB, w.dbp)
@@ -301,6 +305,39 @@ func (w *c10World) line(c *Ctx, in string) {
 		w.do(c, in, func() { w.ts.DB.ListenerAdd(string(unhx(parts[1])), parts[2], string(unhx(parts[3]))) })
 	case "lrem":
 		w.do(c, in, func() { w.ts.DB.ListenerRemove(string(unhx(parts[1]))) })
+	case "tladd": // tladd <namehex> smb|http: a listener started through the teamserver (which persists it)
+		name := string(unhx(parts[1]))
+		w.do(c, in, func() {
+			if parts[2] == "http" {
+				p := freePort()
+				w.tlPorts[name] = p
+				w.ts.ListenerStart(handlers.LISTENER_HTTP, handlers.HTTPConfig{Name: name, Hosts: []string{"127.0.0.1"}, HostBind: "127.0.0.1",
+					HostRotation: "round-robin", PortBind: strconv.Itoa(p), PortConn: strconv.Itoa(p), UserAgent: "ua"})
+				for i := 0; i < 200; i++ {
+					if cn, err := net.DialTimeout("tcp", fmt.Sprintf("127.0.0.1:%d", p), ms(50)); err == nil {
+						cn.Close()
+						break
+					}
+					time.Sleep(ms(5))
+				}
+			} else {
+				w.ts.ListenerStart(handlers.LISTENER_PIVOT_SMB, handlers.SMBConfig{Name: name, PipeName: "p"})
+			}
+		})
+	case "tlrem": // tlrem <namehex> [stuck]: removed through the teamserver; "stuck": while a request is still in flight on it
+		name := string(unhx(parts[1]))
+		var held net.Conn
+		if len(parts) > 2 && parts[2] == "stuck" && w.tlPorts[name] != 0 {
+			if cn, err := net.DialTimeout("tcp", fmt.Sprintf("127.0.0.1:%d", w.tlPorts[name]), ms(300)); err == nil {
+				cn.Write([]byte("POST /x HTTP/1.1\r\nHost: h\r\nUser-Agent: ua\r\nContent-Length: 100\r\n\r\nhalf"))
+				time.Sleep(ms(30))
+				held = cn
+			}
+		}
+		w.do(c, in, func() { w.ts.ListenerRemove(name) })
+		if held != nil {
+			held.Close()
+		}
 	default:
 		panic("C10: unknown op " + parts[0])
 	}
@@ -318,9 +355,25 @@ func runC10(c *Ctx) {
 	r := c.R
 	universe := []string{"00000a01", "00000b02", "00000c03", "80000d04", "ffffffff", "7fffffff"}
 	lnames := []string{"http", "http-1", "http_1", "Edge", "edge", "smb%", "9", "007", "ünï"}
+	tln := 0
 	for c.Lines < c.N {
 		w.line(c, "reset")
 		w.line(c, fmt.Sprintf("reg %s %d", universe[r.Intn(3)], r.U64()))
+		if r.Chance(1, 12) { // listeners started and removed through the teamserver; one removal while a request is in flight (stop takes 5 s)
+			tln++
+			a, b := hx([]byte(fmt.Sprintf("tl-smb%d", tln))), hx([]byte(fmt.Sprintf("tl-http%d", tln)))
+			c.Count("tl-listeners")
+			w.line(c, "tladd "+a+" smb")
+			w.line(c, "tladd "+b+" http")
+			if r.Bool() {
+				w.line(c, "tlrem "+a)
+			}
+			if tln%3 == 1 {
+				w.line(c, "tlrem "+b+" stuck")
+			} else if r.Bool() {
+				w.line(c, "tlrem "+b)
+			}
+		}
 		steps := 3 + r.Intn(10)
 		for s := 0; s < steps; s++ {
 			pick := func() string {
